@@ -2,6 +2,7 @@ use byteorder::{BigEndian, ByteOrder};
 
 use crate::compress::*;
 use crate::constants::*;
+use crate::dns_sector::*;
 use crate::errors::*;
 use crate::parsed_packet::*;
 use crate::response_iterator::*;
@@ -332,6 +333,14 @@ impl Renamer {
         }
         if target_name.len() > DNS_MAX_HOSTNAME_LEN || source_name.len() > DNS_MAX_HOSTNAME_LEN {
             bail!(DSError::InvalidName("Name too long"));
+        }
+        // Both names are spliced into the packet: they have to be complete,
+        // pointer-free raw names that the validator would accept
+        for name in [target_name, source_name] {
+            if DNSSector::check_uncompressed_name(name, 0)? != name.len() {
+                bail!(DSError::InvalidName("Unexpected data after the name"));
+            }
+            Compress::check_compressed_name(name, 0)?;
         }
         let mut renamed_packet = Vec::with_capacity(parsed_packet.packet().len());
         parsed_packet.copy_header(&mut renamed_packet);
